@@ -14,11 +14,12 @@ for c in h.conds(tier):
     if sub not in c.name: continue
     mod, func = c.fn.split(":"); fn = getattr(importlib.import_module(mod), func)
     doms = []
+    primes = iter([2, 3, 5, 7, 11, 13, 17, 19, 23, 29, 31, 37])
     for p in c.params:
         if p.kind == "bool": doms.append([False, True])
         elif p.kind == "str": doms.append(["", "A", "A-1", "*A*"])
         elif p.lo is not None and p.hi is not None: doms.append(list(range(p.lo, p.hi)))
-        else: doms.append([1, 2, 5])
+        else: doms.append([next(primes)])     # unbounded parameter: one distinctive value
     names = [p.name for p in c.params]
     for combo in itertools.product(*doms):
         kw = dict(zip(names, combo))
